@@ -1,20 +1,24 @@
 #!/bin/bash
-# tools/selftest.sh - binding demonstration: every seeded change under /verif/seeded must be detected (exit 1) by the quick
-# command of its property, and the same command must be quiet (exit 0) on the unchanged tree.  Applies each patch to
-# /repo, runs the check, and reverts (`git -C /repo checkout -- .`).  Writes seeded/SUMMARY.json.
+# tools/selftest.sh - binding demonstration: every seeded breaking change under /verif/seeded (round 1: seeded/<name>/,
+# round 2: seeded/r2/<Cxx>_break_N/) must be detected (exit 1) by the quick command of its property, every benign change
+# (seeded/r2/<Cxx>_benign_N/) must leave it quiet (exit 0), and the same command must be quiet on the unchanged tree.
+# Applies each patch to /repo, runs the check, and reverts (`git -C /repo checkout -- .`).  Writes seeded/SUMMARY.json.
 cd /verif
 git -C /repo diff --quiet || { echo "/repo has uncommitted changes"; exit 2; }
 echo "[" > /tmp/selftest.json; first=1; fail=0
-for d in seeded/*/; do
-  n=$(basename $d); p=$(python3 -c "import json;print(json.load(open('$d/meta.json'))['property'])")
+for d in seeded/C*/ seeded/r2/C*/; do
+  [ -f $d/patch.diff ] || continue
+  n=$(basename $d)
+  if [ -f $d/meta.json ]; then p=$(python3 -c "import json;print(json.load(open('$d/meta.json'))['property'])"); else p=${n%%_*}; fi
+  want=1; [[ $n == *_benign_* ]] && want=0
   git -C /repo apply /verif/$d/patch.diff || { echo "$n: patch does not apply"; fail=1; continue; }
   ./check $p > /tmp/selftest_$n.log 2>&1; rc=$?
   git -C /repo checkout -- .
   keys=$(grep -m2 "key=" /tmp/selftest_$n.log | sed 's/.*key=//' | tr '\n' ';')
-  echo "$n property=$p rc=$rc $keys"
-  [ $rc -eq 1 ] || fail=1
+  echo "$n property=$p rc=$rc (expected $want) $keys"
+  [ $rc -eq $want ] || fail=1
   [ $first -eq 1 ] || echo "," >> /tmp/selftest.json; first=0
-  echo "{\"seed\": \"$n\", \"property\": \"$p\", \"check_rc\": $rc, \"detected\": $([ $rc -eq 1 ] && echo true || echo false)}" >> /tmp/selftest.json
+  echo "{\"seed\": \"$n\", \"property\": \"$p\", \"check_rc\": $rc, \"expected_rc\": $want, \"as_expected\": $([ $rc -eq $want ] && echo true || echo false)}" >> /tmp/selftest.json
 done
 echo "]" >> /tmp/selftest.json
 cp /tmp/selftest.json seeded/SUMMARY.json
